@@ -57,10 +57,27 @@ func (x *nb) sym(n, class int) (int, int) {
 // value follows "Name:") - used to check the kind of header reported.
 func c09Parse(h HdrT, via int, val []byte) (*PFromBody, int, ErrorHdr, int) {
 	var pf PFromBody
-	if via == 0 {
+	if via == 0 || via == 2 {
 		buf := append(append([]byte(nil), val...), '\r', '\n', 'X')
-		o, e := ParseNameAddrPVal(h, buf, 0, &pf)
-		return &pf, o, e, 0
+		if via == 0 {
+			o, e := ParseNameAddrPVal(h, buf, 0, &pf)
+			return &pf, o, e, 0
+		}
+		// via 2: the value starts at offset 7 and arrives in two pieces
+		const k = 7
+		text := buf
+		buf = vPad(k, []byte{':', ' '}, text)
+		if c := vChoice(len(text)); c > 0 {
+			o, e := ParseNameAddrPVal(h, buf[:k+c], k, &pf)
+			if e == ErrHdrMoreBytes {
+				o, e = ParseNameAddrPVal(h, buf, o, &pf)
+				vReach("resumed")
+				return &pf, o, e, k
+			}
+			pf.Reset()
+		}
+		o, e := ParseNameAddrPVal(h, buf, k, &pf)
+		return &pf, o, e, k
 	}
 	names := [...]string{HdrFrom: "From:", HdrTo: "To:", HdrContact: "Contact:", HdrPAI: "P-Asserted-Identity:"}
 	pre := names[h]
@@ -68,7 +85,29 @@ func c09Parse(h HdrT, via int, val []byte) (*PFromBody, int, ErrorHdr, int) {
 	buf = append(buf, '\r', '\n', 'X')
 	var hd Hdr
 	var pv PHdrVals
-	o, e := ParseHdrLine(buf, 0, &hd, &pv)
+	k := 0
+	var o int
+	var e ErrorHdr
+	if via == 3 {
+		// via 3: the header line starts at offset 5 and arrives in two pieces
+		k = 5
+		text := buf
+		buf = vPad(k, []byte{'\r', '\n'}, text)
+		o, e = k, ErrHdrMoreBytes
+		if c := vChoice(len(text)); c > 0 {
+			o, e = ParseHdrLine(buf[:k+c], k, &hd, &pv)
+			if e != ErrHdrMoreBytes {
+				hd.Reset()
+				pv.Reset()
+				o, e = k, ErrHdrMoreBytes
+			} else {
+				vReach("resumed")
+			}
+		}
+		o, e = ParseHdrLine(buf, o, &hd, &pv)
+	} else {
+		o, e = ParseHdrLine(buf, 0, &hd, &pv)
+	}
 	var r *PFromBody
 	switch h {
 	case HdrFrom:
@@ -83,7 +122,7 @@ func c09Parse(h HdrT, via int, val []byte) (*PFromBody, int, ErrorHdr, int) {
 	if r == nil {
 		r = &pf
 	}
-	return r, o, e, len(pre)
+	return r, o, e, k + len(pre)
 }
 
 // H_C09_shape(h, via, shape, w): shapes
